@@ -57,6 +57,11 @@ func TestVerifC13(t *testing.T) {
 		}
 		c13Case(run, i, rng)
 	})
+	// a save that fails half-way while block writes of its own are in
+	// flight, then rewrites (c13_locfail_test.go)
+	if !c13Dead {
+		c13SaveFault(run)
+	}
 	if run.Replaying() || c13Dead {
 		return
 	}
